@@ -1,13 +1,17 @@
 package telnetsim
 
 import (
+	"bufio"
 	"bytes"
 	"context"
 	"encoding/json"
 	"fmt"
+	"io"
 	"net"
 	"net/url"
+	"runtime"
 	"strings"
+	"sync"
 	"testing"
 	"time"
 
@@ -26,6 +30,7 @@ const (
 	endBudget   = 5000 * time.Hour // simulated; only spent when something hangs
 	maxField    = 1 << 16
 	maxPayload  = 1 << 20
+	maxSessions = 8
 )
 
 // cleanCall maps any byte string into the property's callsign domain: no CR,
@@ -65,6 +70,24 @@ func sleepU(sim *core.Sim, d time.Duration) {
 	}
 	at := sim.Reserve(sim.Now() + d)
 	time.Sleep(at - sim.Now())
+}
+
+// handOver lets the calling goroutine make other goroutines runnable (wake)
+// and continue only when they have run until they blocked. The caller's own
+// next instant is reserved BEFORE the others can run: two runnable goroutines
+// never compete for the simulation's instants (whichever of them the runtime
+// picks, or preempts, the instants they get are the same).
+func handOver(sim *core.Sim, wake func()) {
+	at := sim.Reserve(sim.Now() + 1)
+	wake()
+	time.Sleep(at - sim.Now())
+}
+
+// spawn starts fn on its own goroutine and returns when it has blocked.
+func spawn(sim *core.Sim, fn func()) *core.GoResult {
+	var g *core.GoResult
+	handOver(sim, func() { g = core.Go(fn) })
+	return g
 }
 
 func abbrev(b []byte, n int) string {
@@ -115,9 +138,9 @@ func minPos(a, b time.Duration) time.Duration {
 	return b
 }
 
-// makeDial turns the plan's API choice into a closure. needDeadline: hostile
+// makeDial turns the session's API choice into a closure. needDeadline: hostile
 // servers are only meaningful for calls that have a deadline.
-func makeDial(sim *core.Sim, p *Plan, call, pass string, needDeadline bool) dialSpec {
+func makeDial(sim *core.Sim, p *Session, call, pass string, needDeadline bool) dialSpec {
 	T := time.Duration(clampInt(p.TimeoutMs, 0, 3600_000)) * time.Millisecond
 	if T <= 0 {
 		T = 10 * time.Second
@@ -196,6 +219,8 @@ type side struct {
 	rd      *core.GoResult
 	wrErr   error
 	wrote   int
+	closes  int
+	closeAt time.Duration // instant of the side's last Close call
 }
 
 func newSide(name string) *side { return &side{name: name, logged: make(chan struct{})} }
@@ -215,25 +240,155 @@ func (s *side) loginReturned(sim *core.Sim, c net.Conn, err error) {
 	close(s.logged)
 }
 
-func startReader(sim *core.Sim, name string, c net.Conn, bufs []int, got *[]byte) *core.GoResult {
-	return core.Go(func() {
+// sink is a destination that offers nothing but Write.
+type sink struct{ got *[]byte }
+
+func (k sink) Write(p []byte) (int, error) {
+	*k.got = append(*k.got, p...)
+	return len(p), nil
+}
+
+// startReader is the receiving application: it consumes the connection the
+// way the plan says (st is the stream it receives) until an error or EOF.
+func startReader(sim *core.Sim, note func(string), name string, c net.Conn, st *Stream, got *[]byte) *core.GoResult {
+	bufs := st.ReadBuf
+	vb := clampInt(st.ViaBuf, 1, 1<<16)
+	readLoop := func(rd io.Reader) {
 		for i := 0; ; i++ {
 			buf := make([]byte, clampInt(core.TapeAt(bufs, i, 4096), 1, 1<<16))
-			n, err := c.Read(buf)
+			n, err := rd.Read(buf)
 			*got = append(*got, buf[:n]...)
 			if err != nil {
-				sim.Logf("%s reader ends after %d bytes", name, len(*got))
 				return
 			}
 		}
+	}
+	return core.Go(func() {
+		switch st.ReadVia {
+		case "copy":
+			note("stream-consumed-via-io-copy")
+			io.Copy(sink{got}, c)
+		case "copybuf":
+			note("stream-consumed-via-io-copy")
+			io.CopyBuffer(sink{got}, c, make([]byte, vb))
+		case "writeto":
+			if wt, ok := c.(io.WriterTo); ok {
+				note("stream-consumed-via-conns-own-writeto")
+				wt.WriteTo(sink{got})
+			} else {
+				note("stream-consumed-via-io-copy")
+				note("conn-offers-no-writeto")
+				io.Copy(sink{got}, c)
+			}
+		case "readall":
+			note("stream-consumed-via-io-readall")
+			b, _ := io.ReadAll(c)
+			*got = append(*got, b...)
+		case "bufio":
+			note("stream-consumed-via-bufio-reader")
+			readLoop(bufio.NewReaderSize(c, vb))
+		case "bufio-writeto":
+			note("stream-consumed-via-bufio-reader")
+			note("stream-consumed-via-io-copy")
+			io.Copy(sink{got}, bufio.NewReaderSize(c, vb))
+		default:
+			readLoop(c)
+		}
+		sim.Logf("%s reader ends after %d bytes", name, len(*got))
 	})
 }
 
-// writeStream hands the data over in the plan's Write calls.
-func writeStream(sim *core.Sim, name string, c net.Conn, st Stream) (int, error) {
+// chunkSrc yields a stream's data in the plan's chunks and pauses; it offers
+// nothing but Read.
+type chunkSrc struct {
+	sim  *core.Sim
+	st   *Stream
+	data []byte
+	i    int
+	rest int // bytes of the current chunk not yet handed out
+}
+
+func (s *chunkSrc) Read(p []byte) (int, error) {
+	if len(s.data) == 0 {
+		return 0, io.EOF
+	}
+	if len(p) == 0 {
+		return 0, nil
+	}
+	if s.rest == 0 {
+		sz := core.TapeAt(s.st.Chunks, s.i, 0)
+		if sz <= 0 || sz > len(s.data) {
+			sz = len(s.data)
+		}
+		if d := us(core.TapeAt(s.st.DelayUs, s.i, 0)); d > 0 {
+			sleepU(s.sim, d)
+		}
+		s.i++
+		s.rest = sz
+	}
+	n := copy(p, s.data[:s.rest])
+	s.data = s.data[n:]
+	s.rest -= n
+	return n, nil
+}
+
+// writeStream is the sending application: it hands the data over in the
+// plan's Write calls (or through the plan's other way of writing).
+func writeStream(sim *core.Sim, note func(string), name string, c net.Conn, st Stream) (int, error) {
 	data := []byte(st.Data)
 	if len(data) > maxPayload {
 		data = data[:maxPayload]
+	}
+	switch st.WriteVia {
+	case "copy", "readfrom":
+		src := &chunkSrc{sim: sim, st: &st, data: data}
+		var n int64
+		var err error
+		if rf, ok := c.(io.ReaderFrom); ok && st.WriteVia == "readfrom" {
+			note("stream-written-via-conns-own-readfrom")
+			n, err = rf.ReadFrom(src)
+		} else {
+			note("stream-written-via-io-copy")
+			n, err = io.Copy(c, src)
+		}
+		if err == nil && int(n) != len(data) {
+			err = fmt.Errorf("short copy %d of %d", n, len(data))
+		}
+		if err != nil {
+			sim.Logf("%s copy failed after %d bytes", name, n)
+			return int(n), err
+		}
+		sim.Logf("%s wrote %d payload bytes", name, n)
+		return int(n), nil
+	case "bufio":
+		note("stream-written-via-bufio-writer")
+		bw := bufio.NewWriterSize(c, clampInt(st.ViaBuf, 1, 1<<16))
+		total := 0
+		for i := 0; len(data) > 0; i++ {
+			sz := core.TapeAt(st.Chunks, i, 0)
+			if sz <= 0 || sz > len(data) {
+				sz = len(data)
+			}
+			if d := us(core.TapeAt(st.DelayUs, i, 0)); d > 0 {
+				sleepU(sim, d)
+			}
+			n, err := bw.Write(data[:sz])
+			total += n
+			if err == nil && i%2 == 1 {
+				err = bw.Flush()
+			}
+			if err != nil {
+				sim.Logf("%s buffered write #%d failed after %d bytes", name, i, total)
+				return total - bw.Buffered(), err
+			}
+			data = data[sz:]
+		}
+		if err := bw.Flush(); err != nil {
+			sim.Logf("%s flush failed after %d bytes", name, total)
+			return total - bw.Buffered(), err
+		}
+		sim.Logf("%s wrote %d payload bytes", name, total)
+		return total, nil
 	}
 	total := 0
 	for i := 0; len(data) > 0; i++ {
@@ -259,15 +414,16 @@ func writeStream(sim *core.Sim, name string, c net.Conn, st Stream) (int, error)
 	return total, nil
 }
 
-// transfer is what the application does with a logged-in connection: read
-// everything, write the plan's stream.
-func (s *side) transfer(sim *core.Sim, p *Plan, send Stream, recvBufs []int, both chan struct{}) {
-	s.rd = startReader(sim, s.name, s.conn, recvBufs, &s.got)
-	if p.Quiet {
+// transfer is what the application does with a logged-in connection: consume
+// everything the peer sends (recv), write the plan's stream (send).
+func (s *side) transfer(ss *sess, send Stream, recv *Stream, both chan struct{}) {
+	sim := ss.r.sim
+	s.rd = startReader(sim, ss.r.note, s.name, s.conn, recv, &s.got)
+	if ss.sp.Quiet {
 		<-both
-		sleepU(sim, us(p.QuietUs)+time.Millisecond)
+		sleepU(sim, us(ss.sp.QuietUs)+time.Millisecond)
 	}
-	s.wrote, s.wrErr = writeStream(sim, s.name, s.conn, send)
+	s.wrote, s.wrErr = writeStream(sim, ss.r.note, s.name, s.conn, send)
 }
 
 func waitCh(budget time.Duration, chs ...chan struct{}) bool {
@@ -283,53 +439,47 @@ func waitCh(budget time.Duration, chs ...chan struct{}) bool {
 	return true
 }
 
-// wire collects what the taps see.
+// wire collects what the taps of one session's link see.
 type wire struct {
-	sim        *core.Sim
+	r          *run
 	l1, l      int // client->server: end of callsign line, end of password line
 	ab, ba     int
+	lastAB     time.Duration // instant of the last client->server delivery
 	links      []*pipe.Link
 	abAtAccept int
 	startDial  time.Duration
-	seen       map[string]bool
 	dead       bool
 }
 
 func (w *wire) attach(l *pipe.Link) {
 	w.links = append(w.links, l)
 	if w.dead {
-		l.Kill() // the run is being wound up: nothing may block on a late link
+		l.Kill() // the session is being wound up: nothing may block on a late link
 	}
 	l.Tap(func(p []byte) {
 		a, b := w.ab, w.ab+len(p)
 		w.ab = b
+		w.lastAB = w.r.sim.Now()
 		switch {
 		case a < w.l && b > w.l:
-			w.seen["c2s-payload-in-same-segment-as-password-line"] = true
+			w.r.note("c2s-payload-in-same-segment-as-password-line")
 		case a < w.l1 && b > w.l1:
-			w.seen["c2s-callsign-and-password-line-share-a-segment"] = true
+			w.r.note("c2s-callsign-and-password-line-share-a-segment")
 		}
 		if (a > 0 && a < w.l1) || (a > w.l1 && a < w.l) {
-			w.seen["c2s-login-line-split"] = true
+			w.r.note("c2s-login-line-split")
 		}
 	}, func(p []byte) {
 		a, b := w.ba, w.ba+len(p)
 		w.ba = b
 		n1, n2 := len(prompt1), len(prompt1)+len(prompt2)
 		if (a > 0 && a < n1) || (a > n1 && a < n2) {
-			w.seen["s2c-prompt-split"] = true
+			w.r.note("s2c-prompt-split")
 		}
 		if a < n2 && b > n2 {
-			w.seen["s2c-payload-in-same-segment-as-password-prompt"] = true
+			w.r.note("s2c-payload-in-same-segment-as-password-prompt")
 		}
 	})
-}
-
-// flush turns the per-run observations into probe counts (one per run).
-func (w *wire) flush() {
-	for _, k := range core.SortedKeys(w.seen) {
-		w.sim.Probe(k)
-	}
 }
 
 func (w *wire) kill() {
@@ -339,64 +489,295 @@ func (w *wire) kill() {
 	}
 }
 
-// settle waits (simulated) until everything written on every link was delivered.
+// delivered reads the tap counters under the link's lock.
+func (w *wire) delivered() (ab, ba int) {
+	if len(w.links) == 0 {
+		return 0, 0
+	}
+	return w.links[len(w.links)-1].Delivered()
+}
+
+// settle waits (simulated) until everything written on the link was delivered.
 func (w *wire) settle(sent func() (ab, ba int)) {
+	sim := w.r.sim
 	step := time.Millisecond
 	for waited := time.Duration(0); waited < endBudget/2; waited += step {
 		wantAB, wantBA := sent()
-		if w.ab >= wantAB && w.ba >= wantBA {
+		ab, ba := w.delivered()
+		if ab >= wantAB && ba >= wantBA {
 			break
 		}
-		time.Sleep(step)
+		sleepU(sim, step)
 		if step < time.Minute {
 			step *= 2
 		}
 	}
-	time.Sleep(10 * time.Millisecond)
+	sleepU(sim, 10*time.Millisecond)
 }
 
-type run struct {
-	sim  *core.Sim
-	p    *Plan
-	prop string
-	out  *core.Outcome
+// sess is one session of a run.
+type sess struct {
+	r    *run
+	k    int
+	sp   *Session
+	arm  string // signature suffix
 	call string
 	pass string
 	w    *wire
-	n    *simnet.Net
+	cli  *side
+	srv  *side
+	cm   *clientModel
+	spec dialSpec
+	// bothSrv, bothCli: closed (one after the other) when both logins have
+	// returned; the quiet regime's writers wait for them
+	bothSrv chan struct{}
+	bothCli chan struct{}
+	dep     *sess         // the session this one starts after (nil: none)
+	next    []*sess       // the sessions that start after this one
+	start   chan struct{} // closed when dep is over
+	// resumeAt: instant at which the scripted client goes on after its connect
+	resumeAt time.Duration
+	gc       *core.GoResult
+	gs       *core.GoResult
+	// observations for the evidence
+	loggedIn bool
+	endAt    time.Duration // first Close of either side
 }
 
-func (r *run) newNet() {
-	r.n = simnet.New(r.sim)
-	// C15 has no link-fault arm ("TCP": reliable stream): only the schedule
-	// part of the link plan is used.
-	lp := r.p.Link
-	lp.Cut, lp.AB.Edits, lp.BA.Edits = nil, nil, nil
-	r.n.LinkPlan = func(string, int) pipe.Plan { return lp }
-	cd := us(r.p.ConnectUs)
-	if cd <= 0 {
-		cd = time.Millisecond
+// names of the two sides in the event log: as ever in single-session runs.
+func (r *run) sideName(base string, k int) string {
+	if !r.multi {
+		return base
 	}
-	if r.p.Arm == "ls" && r.p.Server.Kind == "connect-hang" {
-		cd = endBudget / 4
-	}
-	r.n.ConnectDelay = func(string, int) time.Duration { return cd }
-	r.w = &wire{sim: r.sim, l1: len(r.call) + 1, l: len(r.call) + len(r.pass) + 2, seen: map[string]bool{}}
-	r.n.OnLink = func(_ string, _ int, l *pipe.Link) { r.w.attach(l) }
-	simnet.Use(r.n)
+	return fmt.Sprintf("%s#%d", base, k)
 }
 
-func (r *run) regime() string {
-	if r.p.Quiet {
+func (s *sess) regime() string {
+	if s.sp.Quiet {
 		return "quiet-start"
 	}
 	return "login"
 }
 
+type run struct {
+	sim   *core.Sim
+	p     *Plan
+	prop  string
+	out   *core.Outcome
+	n     *simnet.Net
+	ln    net.Listener
+	ss    []*sess
+	multi bool
+
+	mu        sync.Mutex
+	seen      map[string]bool
+	dialOrder []int // session index of the n-th connect
+	byAddr    map[string]*sess
+	stopping  bool
+}
+
+// note records an observation that becomes a probe count (one per run).
+func (r *run) note(k string) {
+	r.mu.Lock()
+	r.seen[k] = true
+	r.mu.Unlock()
+}
+
+func (r *run) flush() {
+	for _, k := range core.SortedKeys(r.seen) {
+		r.sim.Probe(k)
+	}
+}
+
+// noteDial: the calling goroutine is about to connect for session k. It is
+// called at an instant of the session's own with nothing that blocks between it
+// and the simulated network numbering the connect, so connects are numbered in
+// the order of these calls.
+func (r *run) noteDial(k int) {
+	r.mu.Lock()
+	r.dialOrder = append(r.dialOrder, k)
+	r.mu.Unlock()
+}
+
+func (r *run) sessOfDial(n int) *sess {
+	r.mu.Lock()
+	defer r.mu.Unlock()
+	if n >= 0 && n < len(r.dialOrder) {
+		return r.ss[r.dialOrder[n]]
+	}
+	return r.ss[0]
+}
+
+func (r *run) isStopping() bool {
+	r.mu.Lock()
+	defer r.mu.Unlock()
+	return r.stopping
+}
+
+// buildSessions turns the plan into the run's sessions.
+func (r *run) buildSessions() {
+	p := r.p
+	specs := []*Session{&p.Session}
+	if p.Arm != "ls" {
+		for i := range p.More {
+			if len(specs) >= maxSessions {
+				break
+			}
+			specs = append(specs, &p.More[i])
+		}
+	}
+	r.multi = len(specs) > 1
+	for k, sp := range specs {
+		if k > 0 && sp.Arm != "cl" {
+			sp.Arm = "ll"
+		}
+		s := &sess{r: r, k: k, sp: sp, call: cleanCall(sp.Call), pass: cleanPass(sp.Pass), bothSrv: make(chan struct{}), bothCli: make(chan struct{}), start: make(chan struct{})}
+		s.w = &wire{r: r, l1: len(s.call) + 1, l: len(s.call) + len(s.pass) + 2}
+		s.cli, s.srv = newSide(r.sideName("client", k)), newSide(r.sideName("server", k))
+		switch sp.Arm {
+		case "cl":
+			s.arm = "model-client+lib-listener"
+		case "ls":
+			s.arm = "lib-dialler+model-server"
+		default:
+			s.arm = "lib-dialler+lib-listener"
+		}
+		if sp.After > 0 && sp.After-1 < k {
+			s.dep = r.ss[sp.After-1]
+			s.dep.next = append(s.dep.next, s)
+		}
+		r.ss = append(r.ss, s)
+	}
+}
+
+func (r *run) newNet() {
+	r.n = simnet.New(r.sim)
+	r.byAddr = map[string]*sess{}
+	// C15 has no link-fault arm ("TCP": reliable stream): only the schedule
+	// part of the link plan is used.
+	r.n.LinkPlan = func(_ string, n int) pipe.Plan {
+		lp := r.sessOfDial(n).sp.Link
+		lp.Cut, lp.AB.Edits, lp.BA.Edits = nil, nil, nil
+		return lp
+	}
+	r.n.ConnectDelay = func(_ string, n int) time.Duration {
+		s := r.sessOfDial(n)
+		cd := us(s.sp.ConnectUs)
+		if cd <= 0 {
+			cd = time.Millisecond
+		}
+		if s.sp.Arm == "ls" && r.p.Server.Kind == "connect-hang" {
+			cd = endBudget / 4
+		}
+		return cd
+	}
+	r.n.OnLink = func(_ string, n int, l *pipe.Link) {
+		s := r.sessOfDial(n)
+		if r.multi {
+			// every connection has its own remote address, as on a real network;
+			// that is how the serving side of the harness knows which session an
+			// accepted connection belongs to
+			a := fmt.Sprintf("station-%d.sim:%d", s.k, 40000+n)
+			l.SetAddrs(simnet.Addr(a), simnet.Addr(srvAddr))
+			r.mu.Lock()
+			r.byAddr[a] = s
+			r.mu.Unlock()
+		}
+		s.w.attach(l)
+		if s.sp.Arm == "cl" {
+			// The connect wakes an acceptor (which writes its prompt) and lets the
+			// scripted client go on (which may write at once). The client's next
+			// instant is reserved here, before the listener learns of the
+			// connection, so the two never compete for the simulation's instants.
+			s.resumeAt = r.sim.Reserve(r.sim.Now() + 1)
+		}
+	}
+	simnet.Use(r.n)
+}
+
+// sessOfConn: which session an accepted connection belongs to.
+func (r *run) sessOfConn(c net.Conn) *sess {
+	if !r.multi {
+		return r.ss[0]
+	}
+	if c == nil {
+		return nil
+	}
+	a := c.RemoteAddr()
+	if a == nil {
+		return nil
+	}
+	r.mu.Lock()
+	defer r.mu.Unlock()
+	return r.byAddr[a.String()]
+}
+
+var sessionTag = []byte{0x1e, 'S'}
+
+// foreignBytes reports whether got contains bytes of another session's
+// payload: one of the tags the generator puts into the payloads of runs with
+// several sessions, or the bytes at the first difference being a piece of
+// another session's stream.
+func (r *run) foreignBytes(s *sess, dir string, want, got []byte, first int) (string, bool) {
+	if !r.multi {
+		return "", false
+	}
+	own := byte('c')
+	if dir == "server-to-client" {
+		own = 's'
+	}
+	for i := 0; i+5 <= len(got); i++ {
+		if got[i] != sessionTag[0] || got[i+1] != sessionTag[1] || got[i+4] != 0x1f {
+			continue
+		}
+		k, d := int(got[i+2]-'A'), got[i+3]
+		if k < 0 || k >= len(r.ss) || (d != 'c' && d != 's') || (k == s.k && d == own) {
+			continue
+		}
+		if bytes.Contains(want, got[i:i+5]) {
+			continue
+		}
+		from := "client"
+		if d == 's' {
+			from = "server"
+		}
+		return fmt.Sprintf("offset %d of what was read carries the tag of the payload written by the %s of session %d", i, from, k), true
+	}
+	if win := got[first:]; len(win) >= 8 {
+		win = win[:8]
+		for _, o := range r.ss {
+			for _, st := range []struct {
+				who  string
+				data []byte
+			}{{"client", clip(o.sp.C2S.Data)}, {"server", clip(o.sp.S2C.Data)}} {
+				if (o == s && st.who[0] == own) || !bytes.Contains(st.data, win) || bytes.Contains(want, win) {
+					continue
+				}
+				return fmt.Sprintf("the 8 bytes read at offset %d are part of the payload written by the %s of session %d", first, st.who, o.k), true
+			}
+		}
+	}
+	return "", false
+}
+
 // checkStream is the stream clause: what one side read after login is what
 // the other side wrote after login, complete and in order.
-func (r *run) checkStream(dir, arm string, want, got []byte, note string) {
+func (r *run) checkStream(s *sess, dir string, want, got []byte, note string) {
 	if bytes.Equal(want, got) {
+		return
+	}
+	first := 0
+	for first < len(want) && first < len(got) && want[first] == got[first] {
+		first++
+	}
+	who := ""
+	if r.multi {
+		who = fmt.Sprintf("session %d of %d (callsign %s): ", s.k, len(r.ss), abbrev([]byte(s.call), 16))
+	}
+	if what, yes := r.foreignBytes(s, dir, want, got, first); yes {
+		r.sim.Violate(r.prop, "stream", fmt.Sprintf("other-sessions-bytes-delivered/%s-after-%s/%s", dir, s.regime(), s.arm),
+			"%s%s: the receiver was handed bytes of another session that was open through the same listener: %s. The sender wrote %d bytes after login, the receiver read %d; first difference at offset %d; wrote %s, read %s. %s",
+			who, dir, what, len(want), len(got), first, abbrev(want, 48), abbrev(got, 48), note)
 		return
 	}
 	kind := "bytes-differ"
@@ -410,28 +791,31 @@ func (r *run) checkStream(dir, arm string, want, got []byte, note string) {
 	case len(got) > len(want) && bytes.HasPrefix(got, want):
 		kind = "extra-bytes-after-stream"
 	}
-	first := 0
-	for first < len(want) && first < len(got) && want[first] == got[first] {
-		first++
-	}
-	r.sim.Violate(r.prop, "stream", fmt.Sprintf("%s-%s-after-%s/%s", dir, kind, r.regime(), arm),
-		"%s: the sender wrote %d bytes after login, the receiver read %d (%d missing); first difference at offset %d; wrote %s, read %s. %s",
-		dir, len(want), len(got), len(want)-len(got), first, abbrev(want, 48), abbrev(got, 48), note)
+	r.sim.Violate(r.prop, "stream", fmt.Sprintf("%s-%s-after-%s/%s", dir, kind, s.regime(), s.arm),
+		"%s%s: the sender wrote %d bytes after login, the receiver read %d (%d missing); first difference at offset %d; wrote %s, read %s. %s",
+		who, dir, len(want), len(got), len(want)-len(got), first, abbrev(want, 48), abbrev(got, 48), note)
 }
 
-func (r *run) checkRemoteCall(c net.Conn, arm string) {
+func (r *run) checkRemoteCall(s *sess, c net.Conn) {
 	rc, ok := c.(interface{ RemoteCall() string })
 	if !ok {
-		r.sim.Violate(r.prop, "remote-call", "accepted-conn-has-no-RemoteCall/"+arm, "the accepted connection (%T) does not report a remote call", c)
+		r.sim.Violate(r.prop, "remote-call", "accepted-conn-has-no-RemoteCall/"+s.arm, "the accepted connection (%T) does not report a remote call", c)
 		return
 	}
-	if got := rc.RemoteCall(); got != r.call {
-		r.sim.Violate(r.prop, "remote-call", "differs-from-dialled-callsign/"+arm, "RemoteCall()=%q, dialled callsign %q", got, r.call)
+	if got := rc.RemoteCall(); got != s.call {
+		for _, o := range r.ss {
+			if o != s && o.call == got {
+				r.sim.Violate(r.prop, "remote-call", "is-another-sessions-callsign/"+s.arm, "session %d: RemoteCall()=%q is the callsign session %d dialled with; this session dialled with %q", s.k, got, o.k, s.call)
+				return
+			}
+		}
+		r.sim.Violate(r.prop, "remote-call", "differs-from-dialled-callsign/"+s.arm, "RemoteCall()=%q, dialled callsign %q", got, s.call)
 	}
 }
 
 // checkDeadline is the deadline clause for a dial that was started at start.
-func (r *run) checkDeadline(spec dialSpec, cli *side, note string) {
+func (r *run) checkDeadline(s *sess, note string) {
+	spec, cli := s.spec, s.cli
 	if spec.timeout <= 0 {
 		return
 	}
@@ -439,7 +823,7 @@ func (r *run) checkDeadline(spec dialSpec, cli *side, note string) {
 		return
 	}
 	phase := "during-login"
-	if len(r.w.links) == 0 {
+	if len(s.w.links) == 0 {
 		phase = "during-connect"
 	}
 	took := "had not returned"
@@ -450,148 +834,381 @@ func (r *run) checkDeadline(spec dialSpec, cli *side, note string) {
 		"%s started at %v with deadline/timeout %v %s when the simulated clock reached deadline + 1 s. %s", spec.desc, cli.startAt, spec.timeout, took, note)
 }
 
-// closeDown ends a transfer: one side closes, the other reads until EOF.
-func (r *run) closeDown(cli, srv *side, cliClose, srvClose func()) {
-	type end struct {
-		s     *side
-		close func()
+// end is one side of a session at close-down.
+type end struct {
+	s     *side
+	spec  CloseSpec
+	conn  net.Conn // what Close is called on
+	isLib bool     // the connection came from the library
+}
+
+// closeEnd performs the side's Close calls.
+func (r *run) closeEnd(ss *sess, e end) {
+	sim := r.sim
+	if e.conn == nil {
+		return
 	}
-	a, b := end{cli, cliClose}, end{srv, srvClose}
-	if r.p.CloseFirst == "server" {
+	if e.spec.Unblock && e.s.rd != nil && !e.s.rd.Finished {
+		// the reader leaves Read through a deadline; nobody is inside Read when
+		// Close is called
+		e.conn.SetReadDeadline(time.Unix(1, 0))
+		core.WaitAll(time.Hour, e.s.rd)
+		if e.isLib {
+			r.note("conn-closed-after-reader-left-read")
+		}
+	} else if e.isLib && e.s.rd != nil && !e.s.rd.Finished {
+		r.note("conn-closed-while-read-blocked")
+	}
+	n := clampInt(e.spec.N, 1, 3)
+	for i := 0; i < n; i++ {
+		if i > 0 {
+			if d := us(e.spec.GapUs); d > 0 {
+				sleepU(sim, d)
+			}
+		}
+		if ss.endAt == 0 {
+			ss.endAt = sim.Now()
+		}
+		e.conn.Close()
+		e.s.closes++
+		e.s.closeAt = sim.Now()
+		if i == 0 && e.s.rd != nil {
+			// the side's own reader leaves Read (takes no simulated time) before
+			// the harness goes on
+			core.WaitAll(time.Hour, e.s.rd)
+		}
+	}
+	if n >= 2 && e.isLib {
+		if e.s == ss.srv {
+			r.note("conn-closed-twice")
+		} else {
+			r.note("dialled-conn-closed-twice")
+		}
+	}
+}
+
+// closeDown ends a transfer: one side closes, the other reads until EOF and
+// closes; or both close without waiting for each other.
+func (r *run) closeDown(ss *sess, cli, srv end) {
+	a, b := cli, srv
+	if ss.sp.CloseFirst == "server" {
 		a, b = b, a
 	}
-	a.close()
-	if a.s.rd != nil {
-		core.WaitAll(time.Hour, a.s.rd)
+	if ss.sp.CloseFirst == "both" {
+		r.note("conn-closed-from-both-sides")
+		r.closeEnd(ss, a)
+		r.closeEnd(ss, b)
+		return
 	}
-	r.w.settle(func() (int, int) { return 0, 0 })
+	r.closeEnd(ss, a)
+	ss.w.settle(func() (int, int) { return 0, 0 })
 	if b.s.rd != nil && !core.WaitAll(time.Hour, b.s.rd) {
 		r.sim.Probe("eof-not-seen-after-peer-close")
 	}
-	b.close()
-	if b.s.rd != nil {
-		core.WaitAll(time.Hour, b.s.rd)
-	}
+	r.closeEnd(ss, b)
 }
 
 // ---------------------------------------------------------------- arm ll / cl
 
-// execListener runs arms "ll" (library dialler) and "cl" (scripted client)
-// against the library's listener.
-func (r *run) execListener() {
-	p, sim := r.p, r.sim
-	arm := "lib-dialler+lib-listener"
-	if p.Arm == "cl" {
-		arm = "model-client+lib-listener"
-	}
-	ln, err := telnet.Listen(srvAddr)
-	if err != nil {
-		r.out.Violate(r.prop, "harness", "listen-failed", err.Error())
-		return
-	}
-	srv, cli := newSide("server"), newSide("client")
-	both := make(chan struct{})
-	gs := core.Go(func() {
-		if d := us(p.AcceptDelayUs); d > 0 {
+// acceptLoop is the serving application: "for { c := Accept(); go serve(c) }".
+func (r *run) acceptLoop(ln net.Listener) {
+	sim, p := r.sim, r.p
+	for i := 0; ; i++ {
+		gap := p.AcceptDelayUs
+		if i > 0 {
+			gap = core.TapeAt(p.AcceptGapUs, i-1, 0)
+		}
+		if d := us(gap); d > 0 {
 			sleepU(sim, d)
 		}
-		srv.startAt = sim.Now()
-		c, err := ln.Accept()
-		r.w.abAtAccept = r.w.ab
-		srv.loginReturned(sim, c, err)
-		if err != nil || c == nil {
+		if r.isStopping() {
 			return
 		}
-		srv.transfer(sim, p, p.S2C, p.C2S.ReadBuf, both)
-	})
-	var spec dialSpec
-	var gc *core.GoResult
-	var cm *clientModel
-	if p.Arm == "cl" {
-		cm = newClientModel(r, cli, both)
-		gc = core.Go(cm.run)
+		t0 := sim.Now()
+		c, err := ln.Accept()
+		if r.isStopping() {
+			if c != nil {
+				c.Close()
+			}
+			return
+		}
+		s := r.sessOfConn(c)
+		if c == nil {
+			// the listener itself failed; that ends a real accept loop too
+			sim.Logf("accept returned no connection")
+			if err == nil {
+				err = fmt.Errorf("Accept returned neither a connection nor an error")
+			}
+			if s != nil && !s.srv.returned() {
+				s.srv.startAt = t0
+				s.srv.loginReturned(sim, nil, err)
+			} else {
+				sim.Violate(r.prop, "login", "accept-returned-error-without-connection", "Accept on the open listener returned no connection: %v", err)
+			}
+			return
+		}
+		if s == nil || s.srv.returned() {
+			sim.Violate(r.prop, "harness", "accepted-conn-not-attributable", "accepted connection %T with remote address %v belongs to no session that waits for one", c, c.RemoteAddr())
+			c.Close()
+			continue
+		}
+		s.w.abAtAccept, _ = s.w.delivered()
+		s.srv.startAt = t0
+		if err == nil {
+			srv := s.srv
+			srv.conn = c
+			go2 := make(chan struct{})
+			s.gs = core.Go(func() {
+				<-go2
+				srv.transfer(s, s.sp.S2C, &s.sp.C2S, s.bothSrv)
+			})
+			// what serves the new connection runs until it blocks before the
+			// loop goes back to Accept
+			handOver(sim, func() {
+				srv.loginReturned(sim, c, nil)
+				close(go2)
+			})
+		} else {
+			handOver(sim, func() { s.srv.loginReturned(sim, c, err) })
+		}
+	}
+}
+
+// releaseBoth tells the writers of the quiet regime that both logins have
+// returned, one side after the other.
+func (s *sess) releaseBoth() {
+	if s.sp.Quiet {
+		handOver(s.r.sim, func() { close(s.bothSrv) })
 	} else {
-		spec = makeDial(sim, p, r.call, r.pass, false)
-		gc = core.Go(func() {
-			sleepU(sim, us(p.DialDelayUs))
+		close(s.bothSrv)
+	}
+	close(s.bothCli)
+}
+
+// over: the session has ended; the sessions that wait for that start, one
+// after the other.
+func (s *sess) over() {
+	for _, d := range s.next {
+		handOver(s.r.sim, func() { close(d.start) })
+	}
+}
+
+// control runs one session against the library's listener: arms "ll" (library
+// dialler) and "cl" (scripted client).
+func (s *sess) control() {
+	defer s.over()
+	r, sim, sp := s.r, s.r.sim, s.sp
+	if s.dep != nil {
+		<-s.start
+	}
+	cli, srv := s.cli, s.srv
+	if sp.Arm == "cl" {
+		s.cm = newClientModel(s)
+		s.gc = core.Go(s.cm.run)
+	} else {
+		s.spec = makeDial(sim, sp, s.call, s.pass, false)
+		s.gc = core.Go(func() {
+			sleepU(sim, us(sp.DialDelayUs))
 			cli.startAt = sim.Now()
-			c, err := spec.fn()
+			r.noteDial(s.k)
+			c, err := s.spec.fn()
 			cli.loginReturned(sim, c, err)
 			if err != nil || c == nil {
 				return
 			}
-			cli.transfer(sim, p, p.C2S, p.S2C.ReadBuf, both)
+			cli.transfer(s, sp.C2S, &sp.S2C, s.bothCli)
 		})
 	}
-	okLogin := waitCh(loginBudget, srv.logged, cli.logged)
-	close(both)
-	deadlineHit := p.Arm == "ll" && cli.returned() && cli.err != nil && spec.timeout > 0 && cli.loginAt-cli.startAt >= spec.timeout
-	good := okLogin && srv.err == nil && cli.err == nil && srv.conn != nil && (cm != nil || cli.conn != nil)
+	okLogin := waitCh(loginBudget, cli.logged)
+	if okLogin && (len(s.w.links) > 0 || cli.err == nil) {
+		// the connection exists: the listener's side of the login ends too
+		okLogin = waitCh(loginBudget, srv.logged)
+	}
+	s.releaseBoth()
+	cm := s.cm
+	spec := s.spec
+	deadlineHit := sp.Arm != "cl" && cli.returned() && cli.err != nil && spec.timeout > 0 && cli.loginAt-cli.startAt >= spec.timeout
+	good := okLogin && srv.returned() && srv.err == nil && cli.err == nil && srv.conn != nil && (cm != nil || cli.conn != nil)
 	if !good {
 		switch {
 		case deadlineHit:
 			// the property allows an error at the deadline
 			sim.Probe("dial-deadline-reached-with-conforming-peer")
 		case !okLogin:
-			sim.Violate(r.prop, "login", "did-not-complete/"+arm, "login did not complete within %v simulated: dial returned=%v, Accept returned=%v", loginBudget, cli.returned(), srv.returned())
+			sim.Violate(r.prop, "login", "did-not-complete/"+s.arm, "login did not complete within %v simulated: dial returned=%v, Accept returned=%v", loginBudget, cli.returned(), srv.returned())
 		case cli.err != nil:
-			sim.Violate(r.prop, "login", "dial-failed/"+arm, "dialling the package's listener failed after %v: %v", cli.loginAt-cli.startAt, cli.err)
+			sim.Violate(r.prop, "login", "dial-failed/"+s.arm, "dialling the package's listener failed after %v: %v", cli.loginAt-cli.startAt, cli.err)
 		default:
-			sim.Violate(r.prop, "login", "accept-failed/"+arm, "Accept failed although the dialler logged in: %v", srv.err)
+			sim.Violate(r.prop, "login", "accept-failed/"+s.arm, "Accept failed although the dialler logged in: %v", srv.err)
 		}
-		if p.Arm == "ll" {
-			r.checkDeadline(spec, cli, "Peer: the package's own listener.")
+		if sp.Arm != "cl" {
+			r.checkDeadline(s, "Peer: the package's own listener.")
 		}
-		r.w.kill()
-		ln.Close()
-		core.WaitAll(endBudget, gs, gc)
-		r.closeAll(cli, srv, cm)
-		r.checkPanics(gs, gc, cli.rd, srv.rd)
+		s.w.kill()
+		core.WaitAll(endBudget, s.gc)
+		if len(s.w.links) > 0 {
+			// an Accept that holds (or still gets) the dead connection returns
+			waitCh(time.Hour, srv.logged)
+		}
+		if s.gs != nil {
+			core.WaitAll(endBudget, s.gs)
+		}
+		s.closeAll()
+		r.checkPanics(s.gs, s.gc, cli.rd, srv.rd)
 		return
 	}
-	if p.Arm == "ll" {
-		r.checkDeadline(spec, cli, "Peer: the package's own listener.")
+	if sp.Arm != "cl" {
+		r.checkDeadline(s, "Peer: the package's own listener.")
 	}
+	s.loggedIn = true
 	sim.Probe("logins-completed")
-	if r.w.abAtAccept > r.w.l {
+	if s.w.abAtAccept > s.w.l {
 		sim.Probe("c2s-payload-delivered-before-accept-returned")
+		switch sp.C2S.ReadVia {
+		case "copy", "copybuf", "writeto", "bufio-writeto":
+			// the login reader holds read-ahead and the application asks io.Copy
+			// (which prefers a WriterTo of the connection over its Read)
+			r.note("io-copy-consumer-on-accepted-conn-with-read-ahead")
+		}
 	}
-	core.WaitAll(endBudget, gs, gc)
-	r.w.settle(func() (int, int) { return r.w.l + cli.wrote, len(prompt1) + len(prompt2) + srv.wrote })
+	core.WaitAll(endBudget, s.gs, s.gc)
+	s.w.settle(func() (int, int) { return s.w.l + cli.wrote, len(prompt1) + len(prompt2) + srv.wrote })
 	if spec.timeout > 0 && sim.Now() > cli.startAt+spec.timeout {
 		sim.Probe("transfer-continued-past-dial-deadline")
 	}
-	cliClose := func() {
-		if cm != nil {
-			cm.end.Close()
-		} else {
-			cli.conn.Close()
-		}
+	if d := us(sp.HoldUs); d > 0 {
+		sleepU(sim, d)
 	}
-	r.closeDown(cli, srv, cliClose, func() { srv.conn.Close() })
-	ln.Close()
-	r.checkPanics(gs, gc, cli.rd, srv.rd)
+	ce := end{s: cli, spec: sp.CliClose, conn: cli.conn, isLib: true}
+	if cm != nil {
+		ce.conn, ce.isLib = cm.end, false
+	}
+	r.closeDown(s, ce, end{s: srv, spec: sp.SrvClose, conn: srv.conn, isLib: true})
+	r.checkPanics(s.gs, s.gc, cli.rd, srv.rd)
 
-	r.checkRemoteCall(srv.conn, arm)
-	for _, s := range []*side{cli, srv} {
-		if s.wrErr != nil {
-			sim.Violate(r.prop, "stream", s.name+"-write-failed-after-"+r.regime()+"/"+arm, "%s: Write failed after %d bytes on a healthy link: %v", s.name, s.wrote, s.wrErr)
+	r.checkRemoteCall(s, srv.conn)
+	for _, sd := range []*side{cli, srv} {
+		if sd.wrErr != nil {
+			base := "client"
+			if sd == srv {
+				base = "server"
+			}
+			sim.Violate(r.prop, "stream", base+"-write-failed-after-"+s.regime()+"/"+s.arm, "%s: Write failed after %d bytes on a healthy link: %v", sd.name, sd.wrote, sd.wrErr)
 		}
 	}
-	noteC := fmt.Sprintf("%d bytes of the client's stream (login lines %d bytes) had been delivered to the listener's host when Accept returned.", r.w.abAtAccept, r.w.l)
+	noteC := fmt.Sprintf("%d bytes of the client's stream (login lines %d bytes) had been delivered to the listener's host when Accept returned.", s.w.abAtAccept, s.w.l)
+	if via := sp.C2S.ReadVia; via != "" && via != "read" {
+		noteC += " The accepted connection was consumed via " + via + "."
+	}
+	noteS := ""
+	if via := sp.S2C.ReadVia; via != "" && via != "read" && cm == nil {
+		noteS = "The dialled connection was consumed via " + via + "."
+	}
 	if cli.wrErr == nil {
-		r.checkStream("client-to-server", arm, clip(p.C2S.Data), srv.got, noteC)
+		r.checkStream(s, "client-to-server", clip(sp.C2S.Data), srv.got, noteC)
 	}
 	if srv.wrErr == nil {
-		r.checkStream("server-to-client", arm, clip(p.S2C.Data), cli.got, "")
+		r.checkStream(s, "server-to-client", clip(sp.S2C.Data), cli.got, noteS)
 	}
-	if len(p.C2S.Data) > 0 {
-		sim.Probe("c2s-payload-runs")
+	if len(sp.C2S.Data) > 0 {
+		r.note("c2s-payload-runs")
 	}
-	if len(p.S2C.Data) > 0 {
-		sim.Probe("s2c-payload-runs")
+	if len(sp.S2C.Data) > 0 {
+		r.note("s2c-payload-runs")
 	}
-	r.out.NonTrivial = len(p.C2S.Data)+len(p.S2C.Data) > 0
+	if len(sp.C2S.Data)+len(sp.S2C.Data) > 0 {
+		r.note("nontrivial")
+	}
+}
+
+func (r *run) stopListener() {
+	r.mu.Lock()
+	was := r.stopping
+	r.stopping = true
+	r.mu.Unlock()
+	if !was && r.ln != nil {
+		r.ln.Close()
+	}
+}
+
+// execListener runs the sessions of arms "ll" and "cl" through one listener
+// of the library.
+func (r *run) execListener() {
+	p := r.p
+	ln, err := telnet.Listen(srvAddr)
+	if err != nil {
+		r.out.Violate(r.prop, "harness", "listen-failed", err.Error())
+		return
+	}
+	r.ln = ln
+	var loops, ctrls []*core.GoResult
+	for i := 0; i < clampInt(p.Acceptors, 1, 3); i++ {
+		loops = append(loops, spawn(r.sim, func() { r.acceptLoop(ln) }))
+	}
+	for _, s := range r.ss {
+		ctrls = append(ctrls, spawn(r.sim, s.control))
+	}
+	core.WaitAll(2*endBudget, ctrls...)
+	r.stopListener()
+	core.WaitAll(endBudget, loops...)
+	r.checkPanics(loops...)
+	r.checkPanics(ctrls...)
+	r.out.NonTrivial = r.seen["nontrivial"]
+	delete(r.seen, "nontrivial")
+	if r.multi {
+		r.multiEvidence()
+	}
+}
+
+// multiEvidence turns what happened in a run with several sessions into probes.
+func (r *run) multiEvidence() {
+	sim := r.sim
+	sim.Probe("runs-with-several-sessions")
+	sim.Probe(fmt.Sprintf("runs-with-%d-sessions", len(r.ss)))
+	var in []*sess
+	for _, s := range r.ss {
+		if s.loggedIn {
+			in = append(in, s)
+		}
+	}
+	if len(in) >= 2 {
+		sim.Probe("runs-with-several-completed-sessions")
+	}
+	overlap := func(a, b *sess) bool { return a.srv.loginAt < b.endAt && b.srv.loginAt < a.endAt }
+	seen := map[string]bool{}
+	for _, a := range in {
+		for _, b := range in {
+			if a == b {
+				continue
+			}
+			if a.k < b.k && overlap(a, b) {
+				seen["sessions-overlapping-on-one-listener"] = true
+			}
+			if b.srv.startAt > a.srv.closeAt && b.srv.startAt > a.cli.closeAt {
+				seen["sessions-sequential-on-one-listener"] = true
+			}
+			if overlap(a, b) && a.srv.loginAt < b.srv.loginAt && a.w.lastAB > b.srv.loginAt && a.w.lastAB > a.srv.loginAt {
+				seen["earlier-session-received-payload-after-later-accept"] = true
+			}
+		}
+	}
+	// the shape in which state recycled by a repeated Close would be shared:
+	// an accepted conn closed twice, later two sessions open at the same time
+	for _, x := range in {
+		if x.srv.closes < 2 {
+			continue
+		}
+		for _, a := range in {
+			for _, b := range in {
+				if a.k < b.k && a != x && b != x && a.srv.startAt > x.srv.closeAt && b.srv.startAt > x.srv.closeAt && overlap(a, b) {
+					seen["accepted-conn-closed-twice-then-sessions-overlapping"] = true
+				}
+			}
+		}
+	}
+	for _, k := range core.SortedKeys(seen) {
+		sim.Probe(k)
+	}
 }
 
 func (r *run) checkPanics(gs ...*core.GoResult) {
@@ -609,7 +1226,9 @@ func clip(b []byte) []byte {
 	return b
 }
 
-func (r *run) closeAll(cli, srv *side, cm *clientModel) {
+// closeAll winds a failed session up.
+func (s *sess) closeAll() {
+	cli, srv, cm := s.cli, s.srv, s.cm
 	if cli.conn != nil {
 		cli.conn.Close()
 	}
@@ -619,9 +1238,9 @@ func (r *run) closeAll(cli, srv *side, cm *clientModel) {
 	if cm != nil && cm.end != nil {
 		cm.end.Close()
 	}
-	for _, s := range []*side{cli, srv} {
-		if s.rd != nil {
-			core.WaitAll(endBudget, s.rd)
+	for _, sd := range []*side{cli, srv} {
+		if sd.rd != nil {
+			core.WaitAll(endBudget, sd.rd)
 		}
 	}
 	if cm != nil && cm.rd != nil {
@@ -642,26 +1261,28 @@ func hostileKind(k string) bool {
 // execServerModel runs the library dialler against the scripted server.
 func (r *run) execServerModel() {
 	p, sim := r.p, r.sim
-	arm := "lib-dialler+model-server"
+	s := r.ss[0]
+	sp := s.sp
 	hostile := hostileKind(p.Server.Kind)
-	spec := makeDial(sim, p, r.call, r.pass, hostile)
-	m := newServerModel(r, spec)
+	s.spec = makeDial(sim, sp, s.call, s.pass, hostile)
+	spec := s.spec
+	m := newServerModel(s, spec)
 	if p.Server.Kind != "refused" {
 		r.n.Serve(srvAddr, m.serve)
 	}
-	cli := newSide("client")
-	both := make(chan struct{})
+	cli := s.cli
 
 	if hostile {
-		sleepU(sim, us(p.DialDelayUs))
+		sleepU(sim, us(sp.DialDelayUs))
 		cli.startAt = sim.Now()
-		r.w.startDial = cli.startAt
+		s.w.startDial = cli.startAt
+		r.noteDial(0)
 		g := core.Go(func() {
 			c, err := spec.fn()
 			cli.loginReturned(sim, c, err)
 		})
 		core.WaitAll(spec.timeout+time.Second, g)
-		r.checkDeadline(spec, cli, fmt.Sprintf("Server behaviour: %s (%d bytes sent by the server so far).", p.Server.Kind, r.w.ba))
+		r.checkDeadline(s, fmt.Sprintf("Server behaviour: %s (%d bytes sent by the server so far).", p.Server.Kind, s.w.ba))
 		if cli.returned() {
 			if cli.err != nil {
 				sim.Probe("hostile-dial-returned-error")
@@ -672,8 +1293,8 @@ func (r *run) execServerModel() {
 		sim.Fault("server-" + p.Server.Kind)
 		r.out.NonTrivial = true
 		close(m.stop)
-		close(both)
-		r.w.kill()
+		s.releaseBoth()
+		s.w.kill()
 		core.WaitAll(endBudget, g)
 		if cli.conn != nil {
 			cli.conn.Close()
@@ -684,31 +1305,31 @@ func (r *run) execServerModel() {
 	}
 
 	gc := core.Go(func() {
-		sleepU(sim, us(p.DialDelayUs))
+		sleepU(sim, us(sp.DialDelayUs))
 		cli.startAt = sim.Now()
+		r.noteDial(0)
 		c, err := spec.fn()
 		cli.loginReturned(sim, c, err)
 		if err != nil || c == nil {
 			return
 		}
-		cli.transfer(sim, p, p.C2S, p.S2C.ReadBuf, both)
+		cli.transfer(s, sp.C2S, &sp.S2C, s.bothCli)
 	})
-	m.both = both
 	okLogin := waitCh(loginBudget, cli.logged, m.logged)
-	close(both)
+	s.releaseBoth()
 	deadlineHit := cli.returned() && cli.err != nil && spec.timeout > 0 && cli.loginAt-cli.startAt >= spec.timeout
 	if !okLogin || cli.err != nil || cli.conn == nil {
 		switch {
 		case deadlineHit:
 			sim.Probe("dial-deadline-reached-with-conforming-peer")
 		case !okLogin:
-			sim.Violate(r.prop, "login", "did-not-complete/"+arm, "login did not complete within %v simulated: dial returned=%v, server model saw the password line=%v", loginBudget, cli.returned(), m.isLogged())
+			sim.Violate(r.prop, "login", "did-not-complete/"+s.arm, "login did not complete within %v simulated: dial returned=%v, server model saw the password line=%v", loginBudget, cli.returned(), m.isLogged())
 		default:
-			sim.Violate(r.prop, "login", "dial-failed/"+arm, "dialling a conforming server failed after %v: %v", cli.loginAt-cli.startAt, cli.err)
+			sim.Violate(r.prop, "login", "dial-failed/"+s.arm, "dialling a conforming server failed after %v: %v", cli.loginAt-cli.startAt, cli.err)
 		}
-		r.checkDeadline(spec, cli, "Server behaviour: conforming.")
+		r.checkDeadline(s, "Server behaviour: conforming.")
 		close(m.stop)
-		r.w.kill()
+		s.w.kill()
 		core.WaitAll(endBudget, gc)
 		if cli.conn != nil {
 			cli.conn.Close()
@@ -720,53 +1341,63 @@ func (r *run) execServerModel() {
 		r.checkPanics(gc, cli.rd)
 		return
 	}
-	r.checkDeadline(spec, cli, "Server behaviour: conforming.")
+	r.checkDeadline(s, "Server behaviour: conforming.")
+	s.loggedIn = true
 	sim.Probe("logins-completed")
 	core.WaitAll(endBudget, gc)
 	waitCh(endBudget, m.wrDone)
-	r.w.settle(func() (int, int) { return r.w.l + cli.wrote, m.sent })
+	s.w.settle(func() (int, int) { return s.w.l + cli.wrote, m.sent })
 	if spec.timeout > 0 && sim.Now() > cli.startAt+spec.timeout {
 		sim.Probe("transfer-continued-past-dial-deadline")
 	}
+	if d := us(sp.HoldUs); d > 0 {
+		sleepU(sim, d)
+	}
 	srv := &side{name: "server", rd: m.rd}
-	r.closeDown(cli, srv, func() { cli.conn.Close() }, func() { m.end.Close() })
+	r.closeDown(s, end{s: cli, spec: sp.CliClose, conn: cli.conn, isLib: true}, end{s: srv, spec: sp.SrvClose, conn: m.end})
 	close(m.stop)
 	m.wait()
 	r.checkPanics(gc, cli.rd)
 
 	// what the server model received during login is the analogue of RemoteCall
-	if string(m.callLine) != r.call {
-		sim.Violate(r.prop, "remote-call", "callsign-line-differs-from-dialled-callsign/"+arm, "the server received callsign line %q, dialled callsign %q", m.callLine, r.call)
+	if string(m.callLine) != s.call {
+		sim.Violate(r.prop, "remote-call", "callsign-line-differs-from-dialled-callsign/"+s.arm, "the server received callsign line %q, dialled callsign %q", m.callLine, s.call)
 	}
-	if string(m.passLine) != r.pass {
-		sim.Violate(r.prop, "login", "password-line-differs-from-dialled-password/"+arm, "the server received password line %q, dialled password %q", m.passLine, r.pass)
+	if string(m.passLine) != s.pass {
+		sim.Violate(r.prop, "login", "password-line-differs-from-dialled-password/"+s.arm, "the server received password line %q, dialled password %q", m.passLine, s.pass)
 	}
 	if cli.wrErr != nil {
-		sim.Violate(r.prop, "stream", "client-write-failed-after-"+r.regime()+"/"+arm, "client: Write failed after %d bytes on a healthy link: %v", cli.wrote, cli.wrErr)
+		sim.Violate(r.prop, "stream", "client-write-failed-after-"+s.regime()+"/"+s.arm, "client: Write failed after %d bytes on a healthy link: %v", cli.wrote, cli.wrErr)
 	} else {
-		r.checkStream("client-to-server", arm, clip(p.C2S.Data), m.got, "")
+		r.checkStream(s, "client-to-server", clip(sp.C2S.Data), m.got, "")
 	}
 	if p.Server.Kind == "eager" {
 		// Outside the property (a server must not send post-login data before it
 		// has the password line); evidence only.
 		sim.Probe("eager-server-runs")
-		if !bytes.Equal(clip(p.S2C.Data), cli.got) {
+		if !bytes.Equal(clip(sp.S2C.Data), cli.got) {
 			sim.Probe("eager-server-bytes-lost-by-dialler")
-			sim.Logf("eager server: dialler lost %d of %d bytes", len(clip(p.S2C.Data))-len(cli.got), len(clip(p.S2C.Data)))
+			sim.Logf("eager server: dialler lost %d of %d bytes", len(clip(sp.S2C.Data))-len(cli.got), len(clip(sp.S2C.Data)))
 		}
 	} else if m.wrErr == nil {
-		r.checkStream("server-to-client", arm, clip(p.S2C.Data), cli.got, "")
+		noteS := ""
+		if via := sp.S2C.ReadVia; via != "" && via != "read" {
+			noteS = "The dialled connection was consumed via " + via + "."
+		}
+		r.checkStream(s, "server-to-client", clip(sp.S2C.Data), cli.got, noteS)
 	}
-	r.out.NonTrivial = len(p.C2S.Data)+len(p.S2C.Data) > 0
+	r.out.NonTrivial = len(sp.C2S.Data)+len(sp.S2C.Data) > 0
 }
 
 // ---------------------------------------------------------------- entry
 
 type sample struct {
 	Arm, Kind, API       string
+	Sessions             int
 	TimeoutMs            int
 	Call, Pass           string
 	C2S, S2C             int
+	ReadVia              [2]string
 	Quiet                bool
 	SegAB, SegBA         []int
 	LatAB, LatBA         []int
@@ -787,30 +1418,42 @@ func execute(t *testing.T, prop string, raw json.RawMessage, trace bool) core.Ou
 		out.Violate(prop, "harness", "bad-plan", fmt.Sprint("unusable plan: ", err))
 		return out
 	}
+	// A run is a function of its plan only: package-level state that survives
+	// in a sync.Pool (the library's, fmt's) must not travel from one plan of
+	// this process to the next. Two collections empty every pool (the first
+	// moves the items to the victim cache, the second drops them).
+	runtime.GC()
+	runtime.GC()
 	leak, pv, stack := core.Bubble(t, trace, func(sim *core.Sim) {
-		r := &run{sim: sim, p: &p, prop: prop, out: &out, call: cleanCall(p.Call), pass: cleanPass(p.Pass)}
+		if p.Arm != "ls" && p.Arm != "cl" {
+			p.Arm = "ll"
+		}
+		r := &run{sim: sim, p: &p, prop: prop, out: &out, seen: map[string]bool{}}
+		r.buildSessions()
 		r.newNet()
 		defer simnet.Use(nil)
-		sim.Logf("arm=%s kind=%s api=%s call=%d pass=%d c2s=%d s2c=%d", p.Arm, p.Server.Kind, p.API, len(r.call), len(r.pass), len(p.C2S.Data), len(p.S2C.Data))
-		switch p.Arm {
-		case "ls":
+		s0 := r.ss[0]
+		sim.Logf("arm=%s kind=%s api=%s call=%d pass=%d c2s=%d s2c=%d", p.Arm, p.Server.Kind, p.API, len(s0.call), len(s0.pass), len(p.C2S.Data), len(p.S2C.Data))
+		for _, s := range r.ss[1:] {
+			sim.Logf("session %d: arm=%s api=%s call=%d pass=%d c2s=%d s2c=%d after=%d", s.k, s.sp.Arm, s.sp.API, len(s.call), len(s.pass), len(s.sp.C2S.Data), len(s.sp.S2C.Data), s.sp.After)
+		}
+		if p.Arm == "ls" {
 			r.execServerModel()
-		case "cl":
-			r.execListener()
-		default:
-			p.Arm = "ll"
+		} else {
 			r.execListener()
 		}
 		kind := ""
 		if p.Arm == "ls" {
 			kind = p.Server.Kind
 		}
-		out.Sample = sample{Arm: p.Arm, Kind: kind, API: p.API, TimeoutMs: p.TimeoutMs, Call: abbrev([]byte(r.call), 16), Pass: abbrev([]byte(r.pass), 16),
-			C2S: len(p.C2S.Data), S2C: len(p.S2C.Data), Quiet: p.Quiet,
+		out.Sample = sample{Arm: p.Arm, Kind: kind, API: p.API, Sessions: len(r.ss), TimeoutMs: p.TimeoutMs, Call: abbrev([]byte(s0.call), 16), Pass: abbrev([]byte(s0.pass), 16),
+			C2S: len(p.C2S.Data), S2C: len(p.S2C.Data), ReadVia: [2]string{p.C2S.ReadVia, p.S2C.ReadVia}, Quiet: p.Quiet,
 			SegAB: short(p.Link.AB.Seg), SegBA: short(p.Link.BA.Seg), LatAB: short(p.Link.AB.LatUs), LatBA: short(p.Link.BA.LatUs),
 			CoalesceAB: short(p.Link.AB.Coalesce), CoalesBA: short(p.Link.BA.Coalesce)}
-		sim.Probe("arm-" + p.Arm)
-		r.w.flush()
+		for _, s := range r.ss {
+			sim.Probe("arm-" + s.sp.Arm)
+		}
+		r.flush()
 		sim.FillOutcome(&out)
 	})
 	if pv != nil {
